@@ -140,8 +140,10 @@ where
 {
     buffer.clear();
 
-    let n = stream.read_buf(buffer).await?;
-    buffer.truncate(n);
+    // The observer writes one document and closes the stream. A single read
+    // returns at most what fits in the buffer's spare capacity (and possibly
+    // less), which cut documents of instances with many ports short.
+    stream.read_to_end(buffer).await?;
     serde_json::from_slice(buffer)
         .map_err(|e| std::io::Error::new(std::io::ErrorKind::InvalidInput, e))
 }
